@@ -406,16 +406,9 @@ def r15_1_rewriters_stop_at_locked(ctx: Ctx) -> None:
 
 def _is_target_of(p: Path, e: ast.expr | None, subject: str) -> bool:
     """Does ``e`` denote ``<subject>.target`` (a pattern capture of it, a local bound to it, or the attribute)?"""
-    if e is None:
-        return False
-    if isinstance(e, ast.Name):
-        b = env_at(p).get(e.id)
-        if isinstance(b, tuple):
-            return b[0] == "capture" and src(b[1]) == subject and b[2] == ("target",)
-        if isinstance(b, ast.expr):
-            return src(b) == f"{subject}.target"
-        return False
-    return src(e) == f"{subject}.target"
+    from ..flow import denotes
+
+    return denotes(p, e, subject, ("target",))
 
 
 def r15_2_simplification_shapes(ctx: Ctx) -> None:
@@ -888,32 +881,43 @@ def r06_1_flags(ctx: Ctx, rule: str = "R06.1") -> None:
     ji = base.methods.get("is_join_identity")
     if ji is None:
         raise AnalysisError("BaseRelation.is_join_identity is missing")
-    from ..facts import facts_of
+    from .. import boolfn as B
 
-    for i, p in enumerate(ctx.paths(ji)):
-        v = p.value
-        fs = {str(f) for f in facts_of(v, True)} if v is not None else set()
-        need = {"not TRUTH(self.columns)", "EQ(1, self.max_rows)", "EQ(1, self.min_rows)"}
-        if p.outcome == "return" and need <= fs and not any(f.startswith("OR(") for f in fs) and len(fs) == 3:
-            run.ok(rule, f"is_join_identity:path{i}", {"definition": src(v)})
+    def define(fi, inst, want, want_text, why):
+        got = B.function_truth(ctx.paths(fi))
+        if got is None:
+            run.fail(rule, inst, f"{fi.qualname} can raise or fall off the end instead of returning a flag", fi=fi)
+            return
+        try:
+            same, cex = B.equivalent(got, want)
+        except ValueError as e:
+            raise AnalysisError(f"{fi.key}: {e}")
+        if same:
+            run.ok(rule, inst, {"definition": B.show(got)})
         else:
             run.fail(
                 rule,
-                f"is_join_identity:path{i}",
-                f"is_join_identity is `{src(v)}`; a join identity has no columns and exactly one row (min_rows == max_rows == 1), "
-                f"missing {sorted(need - fs)}: joins with such a relation are elided, so a weaker test drops a real operand",
-                fi=ji,
-                node=p.node,
+                inst,
+                f"{fi.qualname} is `{B.show(got)}`, which differs from {want_text} when {B.show_env(cex)}: {why}",
+                fi=fi,
             )
+
+    define(
+        ji,
+        "is_join_identity:path0",
+        B.conj([B.neg(B.atom("TRUTH", "self.columns")), B.atom("EQ", "1", "self.max_rows"), B.atom("EQ", "1", "self.min_rows")]),
+        "`no columns and min_rows == max_rows == 1`",
+        "joins with such a relation are elided, so a weaker test drops a real operand (a stronger one keeps a useless one and changes trees)",
+    )
     tr = base.methods.get("is_trivial")
     if tr is not None:
-        for i, p in enumerate(ctx.paths(tr)):
-            v = p.value
-            ok = isinstance(v, ast.BoolOp) and isinstance(v.op, ast.Or) and {src(x) for x in v.values} in ({"self.is_join_identity", "self.max_rows == 0"}, {"self.is_join_identity", "0 == self.max_rows"})
-            if ok:
-                run.ok(rule, f"is_trivial:path{i}")
-            else:
-                run.fail(rule, f"is_trivial:path{i}", f"is_trivial is `{src(v)}`, not `is_join_identity or max_rows == 0`", fi=tr, node=p.node)
+        define(
+            tr,
+            "is_trivial:path0",
+            B.disj([B.atom("TRUTH", "self.is_join_identity"), B.atom("EQ", "0", "self.max_rows")]),
+            "`is_join_identity or max_rows == 0`",
+            "trivial relations are skipped by the Processor and short-circuited by engines",
+        )
     # consumers
     ex = m.func(IT_ENGINE, "Engine.execute")
     rel = [p for p in ex.params if p != "self"][0]
